@@ -42,7 +42,7 @@ def payload(rng, block, depth=0):
 def gen_cases(rng, tier):
     sp = docs.spec()
     cases = []
-    ndocs = 25 if tier == 'quick' else 600
+    ndocs = 25 if tier == 'quick' else 2000
     per_doc = 6 if tier == 'quick' else 12
     lay = docgen.Layout(mode='canonical')
     for d in range(ndocs):
